@@ -2022,7 +2022,54 @@ theorem C11.execKill_ok (props : JVal) (s : State) : ∃ r, (execKill props s).1
   · rw [h]; exact ⟨_, rfl⟩
   · rw [h]; exact ⟨_, rfl⟩
 
-theorem C11.execReadOnly_errNoop (c : String) (props : JVal) (s : State) : ErrNoop (execReadOnly c props) s := by
+/-- `stats` looks at the process table while it runs: when a worker or child vanishes under it (NoSuchProcess,
+    errno 5) kernel-call boundaries have passed; every other error of it is raised before anything was looked at -/
+theorem C11.statsTail_err {ok : Bool} {b : String} {e : Exc} (h : statsTail ok b = .error e) : e = .noSuchProcess := by
+  unfold statsTail at h
+  cases ok
+  · injection h with h; exact h.symm
+  · cases h
+
+theorem C11.execStats_err (props : JVal) (s : State) (e : Exc) (he : (execStats props s).1 = .error e) :
+    e = .noSuchProcess ∨ (execStats props s).2 = s := by
+  unfold execStats at he ⊢
+  cases hn : props.get? "name" with
+  | none =>
+    rw [hn] at he
+    left
+    exact statsTail_err he
+  | some name =>
+    rw [hn] at he
+    simp only at he ⊢
+    rw [bind_run] at he ⊢
+    rcases getWatcherCmd_cases name s with ⟨e1, h⟩ | ⟨u, h⟩
+    · right; rw [h]; rfl
+    · rw [h] at he ⊢
+      simp only at he ⊢
+      rw [bind_run] at he ⊢
+      have hg : getW u s = ((getW u s).1, s) := rfl
+      rw [hg] at he ⊢
+      simp only at he ⊢
+      cases hp : props.get? "process" with
+      | none =>
+        rw [hp] at he
+        left
+        exact statsTail_err he
+      | some v =>
+        rw [hp] at he
+        cases v with
+        | int p =>
+          simp only at he ⊢
+          unfold statsProc at he ⊢
+          by_cases hc : (decide (p < 0) || !(getW u s).1.pids.contains p.toNat) = true
+          · right; erw [if_pos hc]; rfl
+          · erw [if_neg hc] at he
+            left
+            exact statsTail_err he
+        | _ => right; rfl
+
+theorem C11.execReadOnly_errNoop (c : String) (hc : c ≠ "stats") (props : JVal) (s : State) :
+    ErrNoop (execReadOnly c props) s := by
   intro e he
   unfold execReadOnly at he ⊢
   split at he
@@ -2058,6 +2105,7 @@ theorem C11.execReadOnly_errNoop (c : String) (props : JVal) (s : State) : ErrNo
       · rw [h] at he; cases he
   · cases he
   · rfl
+  · exact (hc rfl).elim
   · cases he
 
 theorem C11.veq_readonly_all (c : String)
@@ -2077,7 +2125,8 @@ theorem C11_error_noop (cmd : String)
     (hc : cmd ∈ ["add", "decr", "dstats", "get", "globaloptions", "incr", "ipython", "kill", "list", "listen",
                  "listsockets", "numprocesses", "numwatchers", "options", "quit", "reload", "reloadconfig",
                  "restart", "rm", "start", "stats", "status", "stop"])
-    (props : JVal) (s : State) (e : Exc) (h : (validateExecute cmd props s).1 = .error e) :
+    (props : JVal) (s : State) (e : Exc) (h : (validateExecute cmd props s).1 = .error e)
+    (hst : cmd = "stats" → e ≠ .noSuchProcess) :
     (validateExecute cmd props s).2 = s := by
   by_cases hr : reqOk cmd props
   swap
@@ -2095,9 +2144,9 @@ theorem C11_error_noop (cmd : String)
       cases v with
       | int i => exact execIncrDecr_errNoop _ props s e h
       | _ => rfl
-  · rw [veq_readonly_all _ (by decide) props s hr] at h ⊢; exact execReadOnly_errNoop _ props s e h
-  · rw [veq_readonly_all _ (by decide) props s hr] at h ⊢; exact execReadOnly_errNoop _ props s e h
-  · rw [veq_readonly_all _ (by decide) props s hr] at h ⊢; exact execReadOnly_errNoop _ props s e h
+  · rw [veq_readonly_all _ (by decide) props s hr] at h ⊢; exact execReadOnly_errNoop _ (by decide) props s e h
+  · rw [veq_readonly_all _ (by decide) props s hr] at h ⊢; exact execReadOnly_errNoop _ (by decide) props s e h
+  · rw [veq_readonly_all _ (by decide) props s hr] at h ⊢; exact execReadOnly_errNoop _ (by decide) props s e h
   · -- incr
     rw [veq_incr props s hr] at h ⊢
     cases hnb : props.get? "nb" with
@@ -2107,7 +2156,7 @@ theorem C11_error_noop (cmd : String)
       cases v with
       | int i => exact execIncrDecr_errNoop _ props s e h
       | _ => rfl
-  · rw [veq_readonly_all _ (by decide) props s hr] at h ⊢; exact execReadOnly_errNoop _ props s e h
+  · rw [veq_readonly_all _ (by decide) props s hr] at h ⊢; exact execReadOnly_errNoop _ (by decide) props s e h
   · -- kill
     rw [veq_kill props s hr] at h ⊢
     cases hv : validateKill props with
@@ -2117,12 +2166,12 @@ theorem C11_error_noop (cmd : String)
       obtain ⟨r, hk⟩ := execKill_ok props s
       simp only at h
       rw [hk] at h; cases h
-  · rw [veq_readonly_all _ (by decide) props s hr] at h ⊢; exact execReadOnly_errNoop _ props s e h
-  · rw [veq_readonly_all _ (by decide) props s hr] at h ⊢; exact execReadOnly_errNoop _ props s e h
-  · rw [veq_readonly_all _ (by decide) props s hr] at h ⊢; exact execReadOnly_errNoop _ props s e h
-  · rw [veq_readonly_all _ (by decide) props s hr] at h ⊢; exact execReadOnly_errNoop _ props s e h
-  · rw [veq_readonly_all _ (by decide) props s hr] at h ⊢; exact execReadOnly_errNoop _ props s e h
-  · rw [veq_readonly_all _ (by decide) props s hr] at h ⊢; exact execReadOnly_errNoop _ props s e h
+  · rw [veq_readonly_all _ (by decide) props s hr] at h ⊢; exact execReadOnly_errNoop _ (by decide) props s e h
+  · rw [veq_readonly_all _ (by decide) props s hr] at h ⊢; exact execReadOnly_errNoop _ (by decide) props s e h
+  · rw [veq_readonly_all _ (by decide) props s hr] at h ⊢; exact execReadOnly_errNoop _ (by decide) props s e h
+  · rw [veq_readonly_all _ (by decide) props s hr] at h ⊢; exact execReadOnly_errNoop _ (by decide) props s e h
+  · rw [veq_readonly_all _ (by decide) props s hr] at h ⊢; exact execReadOnly_errNoop _ (by decide) props s e h
+  · rw [veq_readonly_all _ (by decide) props s hr] at h ⊢; exact execReadOnly_errNoop _ (by decide) props s e h
   · -- quit
     rw [veq_quit] at h ⊢
     exact errNoop_syncMap "arbiter_stop" .arbStop [] (fun tid => ExecRes.future tid "") s e h
@@ -2134,8 +2183,13 @@ theorem C11_error_noop (cmd : String)
   · rw [veq_restart] at h ⊢; exact execSSR_errNoop _ props s e h
   · rw [veq_rm props s hr] at h ⊢; exact execRm_errNoop props s e h
   · rw [veq_start] at h ⊢; exact execSSR_errNoop _ props s e h
-  · rw [veq_readonly_all _ (by decide) props s hr] at h ⊢; exact execReadOnly_errNoop _ props s e h
-  · rw [veq_readonly_all _ (by decide) props s hr] at h ⊢; exact execReadOnly_errNoop _ props s e h
+  · -- stats: every error but the NoSuchProcess of a process vanishing under it is raised before anything was looked at
+    rw [veq_readonly_all _ (by decide) props s hr] at h ⊢
+    have h2 : (execStats props s).1 = .error e := h
+    rcases execStats_err props s e h2 with h3 | h3
+    · exact ((hst rfl) h3).elim
+    · exact h3
+  · rw [veq_readonly_all _ (by decide) props s hr] at h ⊢; exact execReadOnly_errNoop _ (by decide) props s e h
   · rw [veq_stop] at h ⊢; exact execSSR_errNoop _ props s e h
 
 /-! ## `set`: F4 is the only hole — every error other than the execution-time `ValueError` of
@@ -2469,7 +2523,7 @@ theorem C11_refusal_noop (cmd : String) (hc : commandNames.contains cmd = true) 
   by_cases hsig : cmd = "signal"
   · subst hsig
     exact C11_signal_refusal_noop props s e h hr
-  · apply C11_error_noop cmd _ props s e h
+  · apply C11_error_noop cmd _ props s e h (by intro _ he; subst he; cases hr)
     have : cmd ∈ commandNames := by simpa using hc
     simp only [commandNames, List.mem_cons, List.mem_nil_iff, or_false] at this ⊢
     rcases this with h | h | h | h | h | h | h | h | h | h | h | h | h | h | h | h | h | h | h | h | h | h | h | h | h <;>
